@@ -131,3 +131,10 @@ check(
     "Inner models are row-wise pure by construction (stubs); pickle is exercised concretely, not symbolically; 3-row batches; ConstraintKMeans' balanced predictions are batch dependent by design and excluded.",
     "DESIGN.md 3.C04",
 )
+check(
+    "C16",
+    "path-complete bounded exploration (SX): the pipeline is decoded from a symbolic shape code realised by z3 (all-models enumeration of the structure space), real scikit-learn containers, independent ground-truth tree, DOT read by a small parser; concrete-mode replay",
+    "For every pipeline in the bound (top-level Pipeline of 1-2 steps + optional final classifier/regressor; steps = transformer, nested Pipeline, FeatureUnion, or first-step ColumnTransformer with 1-2 branches incl. nested pipelines and passthrough, 4 column selections, remainder drop/passthrough; <=3/4 leaf transformers; depth <=3) and each data schema (DataFrame, ndarray, list of names): enumerate_pipeline_models yields every nested estimator (each passthrough occurrence included) exactly once, parents first, distinct coordinates of length depth+1, with the branch columns; pipeline2str has one line per model indented by depth; alter_pipeline_for_debugging leaves every output of the fitted pipeline unchanged and each step records its last input/output with consecutive steps chaining; pipeline2dot is well-formed DOT with declared endpoints and ports, every leaf step once, every input column, acyclic, final outputs reachable from sch0.",
+    "The solver's share is the enumeration of structures (no arithmetic). Leaf estimators are tagged stubs; third-party containers (azureml, sklearn-pandas) and TransformedTargetRegressor are outside; wider/deeper pipelines are outside the bound.",
+    "DESIGN.md 3.C16",
+)
